@@ -213,6 +213,10 @@ def materialise(scn, d, scheme='structural', name_tables=False):
     if cfg.get('drop_name') == 'prefix-of-top':
         # a level name that is not in the hierarchy but is a proper prefix of one that is
         conf['drop_level'] = nm.level(tj['hier'][0])[:-1] or 'no_such_level'
+    elif cfg.get('drop_name') == 'top-with-blank':
+        conf['drop_level'] = nm.level(tj['hier'][0]) + ' '        # not a level: the blank belongs to the name
+    elif cfg.get('drop_name') == 'blank-top':
+        conf['drop_level'] = ' ' + nm.level(tj['hier'][0])
     elif cfg.get('drop_name'):
         conf['drop_level'] = cfg['drop_name']
     if scheme == 'ensembl':
@@ -295,6 +299,8 @@ def run_scenario(scn, workdir, scheme='structural', name_tables=False, plan=None
         a.write_h5ad(conf['query_path'])
         conf['obsm_key'] = 'ctm'
         conf['obsm_clobber'] = False
+    if damage == 'no_log_file':
+        conf['log_path'] = None              # no separate log file: the log only travels inside the outputs
     if damage == 'no_tmp_dir':
         # no scratch directory configured: the result buffer is created in extended_result_dir
         conf['tmp_dir'] = None
